@@ -55,6 +55,7 @@ func genEvTumbling(ref core.CaseRef, r *rand.Rand, alShare int) *evCase {
 }
 
 func runC01(ctx *core.Ctx) {
+	evCtx = ctx
 	ctx.SetRule("event time: case = (size, MAXOUTOFORDERNESS, ALLOWEDLATENESS, 0-4 groups, timestamp pattern in {inorder, boundary, jitter, late, early}, optional garbage rows, feed mode) from PRNG(seed,index), closed by a sentinel row; " +
 		"processing time: paced producers against real tickers with the assigned timestamps observed at the window.add.ts hook. " +
 		"non-trivial = at least 2 windows delivered and (out-of-order or late or multi-group input); distinct by (SQL, rows, feed) hash")
